@@ -127,8 +127,12 @@ def check_shift(src, k):
     a, ea = blocks.run_real(src)
     b, eb = blocks.run_real("\n" * k + src)
     # index 0 is on_parse_start: the root state's location is the start of the input, not a declaration
-    la = [(l.filename, l.lineno) for l in a.locs[1:]]
-    lb = [(l.filename, l.lineno - k) for l in b.locs[1:]]
+    # ... and so is the end callback that a stray '}' at the root delivers for the root state just before the error
+    def keep(rec, j):
+        name, state, _ = rec.raw[j]
+        return not (name in blocks.END and getattr(state, "parent", None) is None)
+    la = [(l.filename, l.lineno) for j, l in enumerate(a.locs) if j >= 1 and keep(a, j)]
+    lb = [(l.filename, l.lineno - k) for j, l in enumerate(b.locs) if j >= 1 and keep(b, j)]
     if la != lb:
         return "prepending %d lines does not shift every reported line by %d" % (k, k)
     if (ea is None) != (eb is None):
@@ -166,8 +170,8 @@ def search(ctx, boost=False):
             s.evaluations += 1
             s.count("shift")
             src2 = src if rng.random() < 0.7 else lexgen.mutate(rng, src)
-            if "#line" in src2 or "# " in src2:
-                src2 = "\n".join(l for l in src2.split("\n") if not l.startswith("#"))
+            if "#" in src2:
+                src2 = "\n".join(l for l in src2.split("\n") if "#" not in l)      # markers re-base the line counter
             msg = check_shift(src2, k)
             if msg:
                 s.violations.append(dict(what=msg, case=dict(kind="shift", source=src2, k=k)))
